@@ -1,5 +1,6 @@
 (* C18 — Time-unit conversions for kernel and CSPTP interfaces are exact and normalised. *)
-From ST Require Import Base.Ints Base.F64 Model.NtpTime Model.Units Proofs.UnitsProofs.
+From Coq Require Import ZArith Reals.
+From ST Require Import Base.Ints Base.F64 Model.NtpTime Model.Units Proofs.UnitsProofs Proofs.UnitsFloatProofs.
 Open Scope Z_scope.
 
 (* every int64 nanosecond count splits into (sec, sub-second) with sub-second in [0, 1e9) and sec*1e9 + sub-second = n *)
@@ -52,3 +53,96 @@ Theorem C18_csptp_delays : forall t0 t2 theta d1 d2 c1 c3 utc,
   csptp_c2s_delay t0 t1 c1 utc = theta + d1 /\ csptp_s2c_delay t2 t3 c3 utc = - theta + d2.
 Proof. exact csptp_delays. Qed.
 Print Assumptions C18_csptp_delays.
+
+(* ---- "the drift allowance is proportional to the interval" (clocks.SystemClock.Drift) ----
+
+   Full clause: for every configured drift (ns per second) and every interval whose allowance
+   drift x interval / 10^9 does not overflow int64 nanoseconds, Drift(interval) is that allowance up
+   to the rounding of the float64 evaluation and the conversion to whole nanoseconds.
+
+   Proved below on the range  0 < drift <= MaxInt64,  0 <= interval <= MaxInt64,
+   drift x interval < 2^62 x 10^9  (allowance below 2^62 ns = 146 years; note that drift x interval
+   itself may be far beyond int64, e.g. 500 us/s x 6 h = 1.08 x 10^19 ns^2 > 2^63).
+   Not covered (hence _partial on the headline statement): negative intervals or drifts (the code is
+   odd in both, not proved) and allowances in [2^62, 2^63) ns.  drift = 0 is clocks.UnknownDrift
+   and means "no bound" (C18_drift_unknown). *)
+
+(* Drift(d) = floor(F) for a real F within 2^-50 (relative) of drift x d / 10^9: six roundings to
+   nearest of at most 2^-53 each, no underflow, no overflow, one truncation *)
+Theorem C18_drift_proportional_partial : forall drift_ns d,
+  0 < drift_ns <= max_i64 -> 0 <= d <= max_i64 -> drift_ns * d < 2^62 * 1000000000 ->
+  exists F : R,
+    (IZR (sysclk_drift drift_ns d) <= F < IZR (sysclk_drift drift_ns d) + 1)%R /\
+    (Rabs (F - IZR (drift_ns * d) / 1000000000) <= IZR (drift_ns * d) / 1000000000 * / 1125899906842624)%R.
+Proof. exact sysclk_drift_proportional. Qed.
+Print Assumptions C18_drift_proportional_partial.
+
+(* the property oracle used on the implementation's outputs holds for the model on ALL int64 inputs
+   (outside the range above the oracle is true by definition): D >= 0, D = 0 for the empty interval,
+   |D x 10^9 - drift x d| <= 10^9 + drift x d / 2^48 *)
+Theorem C18_drift_oracle : forall drift_ns d, in_i64 drift_ns -> in_i64 d ->
+  C18_drift_ok drift_ns d (sysclk_drift drift_ns d) = true.
+Proof. exact sysclk_drift_oracle. Qed.
+Print Assumptions C18_drift_oracle.
+
+(* integer form, sharper constant: |D x 10^9 - drift x d| x 2^50 <= 10^9 x 2^50 + drift x d *)
+Theorem C18_drift_close : forall drift_ns d,
+  0 < drift_ns <= max_i64 -> 0 <= d <= max_i64 -> drift_ns * d < 2^62 * 1000000000 ->
+  let D := sysclk_drift drift_ns d in let q := drift_ns * d in
+  0 <= D /\ Z.abs (D * 1000000000 - q) * 2^50 <= 1000000000 * 2^50 + q.
+Proof. intros drift_ns d Hn Hd Hq. apply sysclk_drift_int. repeat split; lia. Qed.
+Print Assumptions C18_drift_close.
+
+(* allowances below 2^50 ns (13 days): at most one nanosecond from floor(drift x d / 10^9) *)
+Theorem C18_drift_within_1ns : forall drift_ns d,
+  0 < drift_ns <= max_i64 -> 0 <= d <= max_i64 -> drift_ns * d < 2^50 * 1000000000 ->
+  drift_ns * d / 1000000000 - 1 <= sysclk_drift drift_ns d <= drift_ns * d / 1000000000 + 1.
+Proof. exact sysclk_drift_1ns. Qed.
+Print Assumptions C18_drift_within_1ns.
+
+(* a longer interval never gets a smaller allowance; the empty interval gets none *)
+Theorem C18_drift_monotone : forall drift_ns d1 d2,
+  0 < drift_ns <= max_i64 -> 0 <= d1 <= d2 -> d2 <= max_i64 -> drift_ns * d2 < 2^62 * 1000000000 ->
+  sysclk_drift drift_ns d1 <= sysclk_drift drift_ns d2.
+Proof. exact sysclk_drift_monotone. Qed.
+Print Assumptions C18_drift_monotone.
+
+Theorem C18_drift_empty_interval : forall drift_ns, 0 < drift_ns <= max_i64 -> sysclk_drift drift_ns 0 = 0.
+Proof. exact sysclk_drift_empty_interval. Qed.
+Print Assumptions C18_drift_empty_interval.
+
+(* proportionality without the constant: monotone and additive over two intervals (oracle of the
+   case kind units.drift_add), for the model on all int64 inputs *)
+Theorem C18_drift_add_oracle : forall drift_ns d1 d2, in_i64 drift_ns -> in_i64 d1 -> in_i64 d2 ->
+  C18_drift_add_ok drift_ns d1 d2 (sysclk_drift drift_ns d1) (sysclk_drift drift_ns d2) (sysclk_drift drift_ns (d1 + d2)) = true.
+Proof. exact sysclk_drift_add_oracle. Qed.
+Print Assumptions C18_drift_add_oracle.
+
+(* drift 0 (clocks.UnknownDrift): the allowance is MaxInt64 for every interval *)
+Theorem C18_drift_unknown : forall d, sysclk_drift 0 d = max_i64.
+Proof. exact sysclk_drift_unknown. Qed.
+Print Assumptions C18_drift_unknown.
+
+(* exact cases by evaluation of the bit-exact model; in both, drift x interval = 1.08 x 10^19 exceeds
+   int64 (an integer evaluation interval * drift / 10^9 wraps) while the allowance is 10.8 s *)
+Example C18_drift_500us_6h :
+  sysclk_drift 500000 21600000000000 = 10800000000 /\
+  max_i64 < 500000 * 21600000000000 < 2^62 * 1000000000.
+Proof. split; [vm_compute; reflexivity|split; reflexivity]. Qed.
+
+Example C18_drift_50us_60h :
+  sysclk_drift 50000 216000000000000 = 10800000000 /\
+  max_i64 < 50000 * 216000000000000 < 2^62 * 1000000000.
+Proof. split; [vm_compute; reflexivity|split; reflexivity]. Qed.
+
+(* a case where the float evaluation is not exact: 3896 ns/s over 0.999999999 s is 3895.999996104 ns *)
+Example C18_drift_inexact : sysclk_drift 3896 999999999 = 3895 /\ 3896 * 999999999 / 1000000000 = 3895.
+Proof. split; vm_compute; reflexivity. Qed.
+
+(* the hypotheses of the range theorems and of the oracle are satisfiable, also at the upper end *)
+Example C18_drift_range_inhabited :
+  C18_drift_range 1000000000 4611686018427387903 = true /\
+  C18_drift_ok 1000000000 4611686018427387903 (sysclk_drift 1000000000 4611686018427387903) = true /\
+  C18_drift_add_ok 500000 10800000000000 10800000000000 5400000000 5400000000 10800000000 = true /\
+  C18_drift_ok 500000 21600000000000 (-7646744073) = false.   (* what an int64 evaluation returns *)
+Proof. repeat split; vm_compute; reflexivity. Qed.
